@@ -1,4 +1,5 @@
 #include "costprog.hpp"
+#include <stdexcept>
 #include <algorithm>
 #include <cmath>
 #include <sstream>
@@ -476,6 +477,10 @@ double CostProgram::runCost(double t, double tg, int seg, const double *p, const
                             double *gp, double *gv, double *ga, double *gj, double *gs, double &gt) const
 {
     const int d = dim;
+    // a callback that fails part-way through an evaluation (a map lookup outside the map): not at the first sample of the
+    // segment, so that the evaluation has accumulated something already
+    if (throw_at_seg >= 0 && seg == throw_at_seg && t > 0)
+        throw std::out_of_range("cost program: position outside the map");
     if (rec)
     {
         RunSample rs;
